@@ -141,6 +141,15 @@ def oracle(impl, o):
         if r_pe[0] == 'err':
             fails.append({'key': 'prefix-errors-raises-' + r_pe[1], 'what': f'prefix_errors raised {r_pe[1]}: {r_pe[2]}'})
         a = r_up[0] == 'ok'
+        if kw['is_leaf'] is None:
+            from props.C09 import ref_is_prefix
+            try:
+                want = ref_is_prefix(p, f, None, kw['none_is_leaf'], kw['namespace'],
+                                     bool(optree._C.is_dict_insertion_ordered(kw['namespace'])))
+            except Exception:
+                want = a
+            if want != a:
+                fails.append({'key': 'flatten-up-to-vs-reference', 'what': f'flatten_up_to {"succeeds" if a else "raises"} but by the documented rules the treespec {"is" if want else "is not"} a prefix of the tree'})
         if r_is[0] == 'ok' and bool(r_is[1]) != a:
             fails.append({'key': 'is-prefix-vs-flatten-up-to',
                           'what': f'flatten_up_to {"succeeds" if a else "raises ValueError"} but is_prefix is {r_is[1]}'})
